@@ -92,7 +92,7 @@ pub fn row_matches(line: &str, s: &[u8], k: usize, norm: bool, delim: &str) -> R
         let v: f64 = p.parse().map_err(|_| format!("value {:?} is not a number", p))?;
         let want = if norm { cnt[i] as f64 / (total.max(1) as f64) } else { cnt[i] as f64 };
         let tol = if norm { 5.1e-7 } else { 0.0 };
-        if (v - want).abs() > tol { return Err(format!("column {}: got {}, expected {}", i, v, want)); }
+        if !((v - want).abs() <= tol) { return Err(format!("column {}: got {}, expected {}", i, v, want)); }
     }
     Ok(())
 }
@@ -146,6 +146,17 @@ pub fn c04(o: &Opts) -> Outcome {
         for norm in [false, true] {
             cases += long.len() as u64;
             if let Some(mut w) = c04_batch(&long, 3, norm) {
+                for kv in w.iter_mut() { if kv.0 == "seq" && kv.1.len() > 200 { kv.1 = format!("{}... ({} bytes)", &kv.1[..60], kv.1.len()); } }
+                return Outcome { cases, witness: Some(w) };
+            }
+        }
+    }
+    if o.thorough {
+        // a single k-mer more than 2^24 times in one record (exactness of the accumulated counts at scale)
+        let big = vec![vec![b'A'; 17_000_000], b"ACGTAC".to_vec()];
+        for norm in [false, true] {
+            cases += 2;
+            if let Some(mut w) = c04_batch(&big, 3, norm) {
                 for kv in w.iter_mut() { if kv.0 == "seq" && kv.1.len() > 200 { kv.1 = format!("{}... ({} bytes)", &kv.1[..60], kv.1.len()); } }
                 return Outcome { cases, witness: Some(w) };
             }
@@ -266,6 +277,15 @@ pub fn c14(o: &Opts) -> Outcome {
             let row = 10 * 8 + 9 + 1;
             if len != n * row {
                 return Outcome { cases, witness: Some(vec![("k".into(), "2".into()), ("why".into(), format!("run '{}' into an existing output path: file has {} bytes, expected {} records x {} bytes", tag, len, n, row))]) };
+            }
+        }
+    }
+    // records without bases between, before and after ordinary ones: each still owns one (all-zero) row slot
+    for recs in [vec![b"ACGTACGT".to_vec(), vec![], b"GGCATTA".to_vec()], vec![vec![], b"ACGGT".to_vec(), vec![], vec![]], vec![vec![], vec![]]] {
+        for header in [false, true] {
+            for threads in [1usize, 3] {
+                cases += 1;
+                if let Some(w) = c14_one(&recs, 2, " ", header, threads) { return Outcome { cases, witness: Some(w) }; }
             }
         }
     }
